@@ -603,7 +603,8 @@ func (e *Engine) newCtx(k *Contract, fi *funcInfo) *Ctx {
 	c := &Ctx{eng: e, con: k, decls: map[string]string{}, occ: map[string]int{}, loopOrd: map[ast.Stmt]int{}, callOrd: map[*ast.CallExpr]int{},
 		retOrd: map[*ast.ReturnStmt]int{}, strlits: map[string]string{}, calleesUsed: map[string]bool{}, typeIDs: map[string]types.Type{},
 		ifacePreds: map[string]types.Type{}, distinctRefs: map[string]bool{}, sorts: map[string]string{}, idxVars: map[string]*types.Var{},
-		usedSpec: map[string]bool{}, ordDone: map[*ast.FuncDecl]bool{}, byteMems: map[string]bool{}, byteArrs: map[string]bool{}}
+		usedSpec: map[string]bool{}, ordDone: map[*ast.FuncDecl]bool{}, byteMems: map[string]bool{}, byteArrs: map[string]bool{},
+		frameWrites: map[string]bool{}, freshRefs: map[string]bool{}, variantAt: map[int]string{}}
 	if fi != nil {
 		c.pkg, c.fn, c.decl = fi.pkg, fi.fn, fi.decl
 	}
@@ -720,7 +721,7 @@ func (e *Engine) verifyFunc(key string) (c *Ctx, err error) {
 			}
 			c.atClauses(ex.s, label, pos)
 			for i, en := range k.Ensures {
-				g := c.cevalBool(en.Expr, ex.s, nil, fi.decl.Body.Lbrace+1)
+				g := c.cevalBool(en.Expr, ex.s, c.entryParams(), fi.decl.Body.Lbrace+1)
 				c.oblige(ex.s, fmt.Sprintf("post%d@%s", i+1, strings.ReplaceAll(label, " ", "")), en.Text, pos, g, en.Tags)
 			}
 			retStates = append(retStates, ex.s)
@@ -730,6 +731,7 @@ func (e *Engine) verifyFunc(key string) (c *Ctx, err error) {
 			return c, fmt.Errorf("%s: break/continue escaped the function body", key)
 		}
 	}
+	c.frameCheck(fi.decl.Body.Rbrace)
 	// vacuity: some normal exit must be reachable under the contracts (unless the function never returns)
 	if len(retStates) > 0 {
 		saved := c.dry
@@ -761,4 +763,75 @@ func (c *Ctx) smoke(s *State, what string, pos token.Pos) {
 	}
 	c.obls = append(c.obls, &Oblig{Name: c.con.Key + "/smoke(" + what + ")", Kind: "smoke", Func: c.con.Key, Assumes: s.assumes, Goal: "false",
 		Pos: c.eng.fset.Position(pos), Smoke: true, decls: c})
+}
+
+// frameCheck: every heap key written outside fresh objects, and every effect of a callee, must be covered by `modifies`.
+func (c *Ctx) frameCheck(pos token.Pos) {
+	k := c.con
+	if !k.HasModifies {
+		return // no frame promised: callers havoc everything
+	}
+	covered := func(key string) bool {
+		for _, m := range k.Modifies {
+			if m == "all" || m == key {
+				return true
+			}
+			if strings.HasPrefix(m, "contents(") || strings.HasPrefix(m, "object(") {
+				continue
+			}
+			prefix := strings.TrimSuffix(m, "*")
+			if strings.HasPrefix(key, prefix) && (strings.HasSuffix(m, "*") || len(key) == len(prefix) || key[len(prefix)] == '$' || key[len(prefix)] == '.' || key[len(prefix)] == '#') {
+				return true
+			}
+		}
+		return false
+	}
+	// contents(p)/object(p) entries cover the corresponding key for writes through that parameter: approximated by key
+	for _, m := range k.Modifies {
+		if strings.HasPrefix(m, "contents(") || strings.HasPrefix(m, "object(") {
+			name := m[strings.Index(m, "(")+1 : len(m)-1]
+			if v := c.lookupLocal(name, c.decl.Body.Lbrace+1); v != nil {
+				switch u := v.Type().Underlying().(type) {
+				case *types.Slice:
+					k.Modifies = append(k.Modifies, memKey(u.Elem()))
+				case *types.Pointer:
+					k.Modifies = append(k.Modifies, "F."+typeKey(u.Elem())+".*")
+				}
+			}
+		}
+	}
+	var bad []string
+	for key := range c.frameWrites {
+		if strings.HasPrefix(key, "L.") {
+			continue
+		}
+		if !covered(key) {
+			bad = append(bad, key)
+		}
+	}
+	for _, m := range c.frameCallee {
+		if !covered(m) {
+			bad = append(bad, "callee:"+m)
+		}
+	}
+	sort.Strings(bad)
+	for _, b := range bad {
+		st := &State{}
+		c.oblige(st, "frame", b, pos, "false", nil)
+	}
+}
+
+// entryParams: in postconditions parameter names denote the values passed by the caller (Go parameters are mutable locals).
+func (c *Ctx) entryParams() map[string]bound {
+	out := map[string]bound{}
+	for _, fld := range c.decl.Type.Params.List {
+		for _, n := range fld.Names {
+			if pv, ok := c.pkg.TypesInfo.Defs[n].(*types.Var); ok && !c.boxed(pv) {
+				if val, ok := c.entry.vars[pv]; ok {
+					out[pv.Name()] = bound{val, pv.Type()}
+				}
+			}
+		}
+	}
+	return out
 }
